@@ -51,6 +51,9 @@ CMDS = [
     ('AUTHENTICATE', 'nonauth', b'{W} PLAIN', 'good'), ('STARTTLS', 'nonauth', b'{W}', None),
     ('SELECT', 'auth', b'{W} INBOX', ('sel', 'INBOX')), ('SELECT', 'auth', b'{W} Missing', ('sel', 'Missing')),
     ('EXAMINE', 'auth', b'{W} Other', ('sel', 'Other')), ('EXAMINE', 'auth', b'{W} Missing', ('sel', 'Missing')),
+    # boundary shapes of a name that does not exist: empty (quoted and as a literal), hierarchy root, only a delimiter
+    ('SELECT', 'auth', b'{W} ""', ('sel', '')), ('EXAMINE', 'auth', b'{W} {0+}\r\n', ('sel', '')),
+    ('SELECT', 'auth', b'{W} "/"', ('sel', '/')), ('EXAMINE', 'auth', b'{W} "Other/"', ('sel', 'Other/')),
     ('CREATE', 'auth', b'{W} New', ('create', 'New')), ('CREATE', 'auth', b'{W} Other', ('create', 'Other')),
     ('DELETE', 'auth', b'{W} Other', ('delete', 'Other')), ('DELETE', 'auth', b'{W} Missing', ('delete', 'Missing')),
     ('RENAME', 'auth', b'{W} Other Other2', ('rename', 'Other', 'Other2')),
